@@ -209,13 +209,17 @@ def check_additive(ns, c):
             bw.accumulate(x[tuple(sl1)], axis=axis)
             variants += [('split axis %d' % sp, whole, fw), ('split axis %d reversed' % sp, whole, bw)]
         if r == 2:
-            vw = S()
             other = 1 - ax
-            for t in range(shape[other]):
-                idx = [slice(None)] * 2
-                idx[other] = t
-                vw.accumulate(x[tuple(idx)])
-            variants.append(('vector-wise', whole, vw))
+            for vaxis in (None, 0, -1):        # for a single vector every valid axis value means the same
+                vw = S()
+                for t in range(shape[other]):
+                    idx = [slice(None)] * 2
+                    idx[other] = t
+                    if vaxis is None:
+                        vw.accumulate(x[tuple(idx)])
+                    else:
+                        vw.accumulate(x[tuple(idx)], axis=vaxis)
+                variants.append(('vector-wise%s' % ('' if vaxis is None else ' with axis=%d' % vaxis), whole, vw))
     # statistics equal the documented sufficient statistics
     st = ref._stats
     st = st.raw() if isinstance(st, Sym) else st
@@ -588,11 +592,15 @@ def replay(w):
                     p = Standardize(); p.accumulate(x[tuple(s2)], axis=axis); p.accumulate(x[tuple(s1)], axis=axis)
                     sts.append(p._stats)
                 if r == 2:
-                    vw = Standardize()
-                    for t_ in range(shape[1 - ax]):
-                        idx = [slice(None)] * 2; idx[1 - ax] = t_
-                        vw.accumulate(x[tuple(idx)])
-                    sts.append(vw._stats)
+                    for vaxis in (None, 0, -1):
+                        vw = Standardize()
+                        for t_ in range(shape[1 - ax]):
+                            idx = [slice(None)] * 2; idx[1 - ax] = t_
+                            if vaxis is None:
+                                vw.accumulate(x[tuple(idx)])
+                            else:
+                                vw.accumulate(x[tuple(idx)], axis=vaxis)
+                        sts.append(vw._stats)
                 xm = np.moveaxis(x.astype(np.float64), ax, -1).reshape(-1, shape[ax])
                 ref = np.zeros((2, shape[ax] + 1)); ref[0, :-1] = xm.sum(0); ref[1, :-1] = (xm ** 2).sum(0); ref[0, -1] = xm.shape[0]
             for s_ in sts:
